@@ -388,6 +388,8 @@ def match_known(prop, name, findings):
     for f in findings:
         if f.get("status") != "known" or f.get("property") != prop:
             continue
-        if fnmatch.fnmatch(name, f.get("obligation", "")):
+        # only * and ? are wildcards: obligation names contain brackets, which fnmatch would read as character classes
+        pat = "".join("[[]" if ch == "[" else "[]]" if ch == "]" else ch for ch in f.get("obligation", ""))
+        if fnmatch.fnmatchcase(name, pat):
             return f
     return None
